@@ -91,6 +91,10 @@ def canon_ann(js):
                                           for x in f["locs"])) for f in js)
 
 
+class DriverError(Exception):
+    """A bug of this driver (never an outcome of the library)."""
+
+
 def _opt(o):
     return None if len(o) == 0 else int(o[0])
 
@@ -168,9 +172,9 @@ def apply_real(kind, obj, op, a, feat_obj=None):
         elif op == "len":
             out = int(len(annot))
         else:
-            raise RuntimeError(f"driver: unknown op {op}")
+            raise DriverError(f"driver: unknown op {op}")
         return obj, "ok", out, detail
-    except RuntimeError:
+    except DriverError:
         raise
     except Exception as e:
         return obj, "Rejected", [], f"{type(e).__name__}: {e}"[:200]
@@ -280,7 +284,7 @@ def _find_by_key(kind, obj, key):
     annot = obj if kind == "annot" else obj.annotation
     hits = [f for f in annot if f.key == key]
     if len(hits) != 1:
-        raise RuntimeError(f"driver: {len(hits)} features with key {key}")
+        raise DriverError(f"driver: {len(hits)} features with key {key}")
     return hits[0]
 
 
@@ -682,6 +686,7 @@ def run(ctx):
     pres = helpers.run_pool(ctx, "harness.drivers.c13:exec_paths", batches, stage="S2",
                             env={"C13_GRAPH": gfile}, item_timeout=120)
     steps = sum((r or {}).get("steps", 0) for r in pres)
+    ctx.log(f"S2b: {steps} steps executed")
     ctx.traces_validated += len(pitems)
     ctx.evaluations += steps
     ctx.nontrivial += sum(1 for it in pitems if len(it["steps"]) >= 2)
@@ -706,6 +711,7 @@ def run(ctx):
             continue
         if r["events"]:
             traces.append(r["events"])
+    ctx.log(f"S3: {len(traces)} traces recorded")
     validate_traces(ctx, traces)
 
     def corrupt(tr):
